@@ -18,6 +18,8 @@ func init() {
 		Assumptions: []string{"Bus.Send delivers each event once to each live listener in order (C10)"},
 		Run:         runC04,
 		Controls: []Control{
+			{Name: "zero-write-time-treated-as-unset", File: "pkg/resource/opt.go", Old: "\tif wr.writeTime != nil {\n\t\treturn *wr.writeTime", New: "\tif wr.writeTime != nil && !wr.writeTime.IsZero() {\n\t\treturn *wr.writeTime", Expect: "R04.16"},
+			{Name: "initial-records-stamped-with-wall-time", File: "pkg/resource/collection.go", Old: "changeTime: conf.clock.Now()}", New: "changeTime: time.Now()}", Expect: "R04.17"},
 			{Name: "value-stores-time-before-computing-it", File: "pkg/resource/value.go", Old: "\t\t\tchangeTime = request.updateTime(r.clock)\n\t\t\tr.changeTime = changeTime\n", New: "\t\t\tr.changeTime = changeTime\n\t\t\tchangeTime = request.updateTime(r.clock)\n", Expect: "this write's time"},
 			{Name: "revert-F60-pullid-last-seed-from-collection", File: "pkg/resource/collection.go", Old: "LastSeedValue: change.SeedValue}", New: "LastSeedValue: change.LastSeedValue}", Expect: "R04.10"},
 			{Name: "send-twice", File: "pkg/resource/collection.go", Old: "\t\tNewValue:   newValue,\n\t})\n\treturn newValue, nil", New: "\t\tNewValue:   newValue,\n\t})\n\tc.bus.Send(context.TODO(), &CollectionChange{Id: id})\n\treturn newValue, nil", Expect: "R04.1"},
@@ -40,6 +42,10 @@ func runC04(c *an.Ctx) {
 	c.Min("R04.12", 40)
 	r072as(c, "R04.13") // what a write stores - and announces - is a copy: the caller's message never becomes the event's value (shared with R07.2)
 	c.Min("R04.13", 4)
+	r0416(c, "R04.16")
+	c.Min("R04.16", 1)
+	r0417(c, "R04.17")
+	c.Min("R04.17", 1)
 	r109(c, "R04.14") // a subscriber that keeps listening keeps getting events: the registry drops exactly the listeners whose context ended (shared with R10.9)
 	c.Min("R04.14", 3)
 	r167(c, "R04.15") // "equivalent" means equal in every element, the first included: a write that changes only element 0 is announced (shared with R16.7)
@@ -437,6 +443,17 @@ func r044(c *an.Ctx) {
 								}
 							}
 						}
+						// the same equation with the 1 on the other side: i+1 == len(slice)
+						if lc, ok := last.(*ssa.Call); ok && an.CalleeName(lc) == "builtin len" {
+							if add, isAdd := idx.(*ssa.BinOp); isAdd && add.Op == token.ADD {
+								if one, isOne := an.ConstInt(add.Y); isOne && one == 1 && isRangeIndex(add.X) {
+									lastOK = true
+								}
+								if one, isOne := an.ConstInt(add.X); isOne && one == 1 && isRangeIndex(add.Y) {
+									lastOK = true
+								}
+							}
+						}
 					}
 				}
 				c.Check(lastOK, rule, name+"|LastSeedValue exactly on the final seed", s.Instr.Pos(), "LastSeedValue = (i == len-1)", "LastSeedValue is not `index == len(seeds)-1`")
@@ -798,4 +815,78 @@ func isFilteredChangeValue(v ssa.Value) bool {
 		}
 	}
 	return false
+}
+
+// r0416: a write's time is the one the caller gave, whenever one was given. WriteRequest.updateTime has exactly two
+// rows: writeTime == nil -> clock.Now(), otherwise *writeTime. Any further condition (treating the zero time as
+// "not given") makes events carry the clock's time although WithWriteTime named another.
+func r0416(c *an.Ctx, rule string) {
+	fn := mustFunc(c, rule, resPkg, "WriteRequest", "updateTime")
+	if fn == nil {
+		return
+	}
+	name := an.FuncName(fn)
+	c.SawFunc(name)
+	leaves := an.DecisionTree(fn, an.DTConfig{Names: map[ssa.Value]string{fn.Params[0]: "wr", fn.Params[1]: "clock"}})
+	ok, why := len(leaves) == 2, fmt.Sprintf("%d rows", len(leaves))
+	for _, l := range leaves {
+		if l.Undec != "" {
+			ok, why = false, l.Undec
+			continue
+		}
+		if len(l.AssignM) != 1 {
+			ok, why = false, fmt.Sprintf("a row depends on %d conditions: %v", len(l.AssignM), l.Assign)
+		}
+		for a := range l.AssignM {
+			if !strings.Contains(a, "writeTime") || !strings.Contains(a, "nil") {
+				ok, why = false, "a row depends on "+a
+			}
+		}
+	}
+	c.Check(ok, rule, name+"|the given write time is used whenever one was given", fn.Pos(), "writeTime == nil -> clock.Now(); otherwise *writeTime",
+		"updateTime does not decide on `writeTime == nil` alone ("+why+"): for some given time the event and the stored change time come from the clock instead")
+}
+
+// r0417: the resource package reads the time from its clock. The only direct calls of time.Now() are the real clock's
+// own Now and the seed of the default random source; anything else (the change time of initial records) ignores
+// WithClock, so seeds carry wall time next to events that carry the configured clock's.
+func r0417(c *an.Ctx, rule string) {
+	n := 0
+	for _, fn := range c.Prog.FuncsIn(resPkg) {
+		if strings.HasSuffix(c.Prog.RelFile(fn.Pos()), "_test.go") {
+			continue
+		}
+		an.Instrs(fn, func(in ssa.Instruction) {
+			call, ok := in.(*ssa.Call)
+			if !ok || an.CalleeName(call) != "time.Now" {
+				return
+			}
+			n++
+			okUse := false
+			// the real clock: a method named Now
+			if fn.Name() == "Now" && fn.Signature.Recv() != nil {
+				okUse = true
+			}
+			// a seed: the result only feeds (Time).Unix/UnixNano
+			all, any := true, false
+			for _, u := range an.Referrers(call) {
+				if _, isDbg := u.(*ssa.DebugRef); isDbg {
+					continue
+				}
+				uc, isCall := u.(*ssa.Call)
+				if isCall && (strings.HasSuffix(an.CalleeName(uc), "time.Time).Unix") || strings.HasSuffix(an.CalleeName(uc), "time.Time).UnixNano")) {
+					any = true
+					continue
+				}
+				all = false
+			}
+			if all && any {
+				okUse = true
+			}
+			c.SawFunc(an.FuncName(fn))
+			c.Check(okUse, rule, fmt.Sprintf("%s|time.Now() only as the real clock or a seed", an.FuncName(fn)), call.Pos(), "",
+				"the resource package reads the wall clock directly: this time ignores WithClock, so it disagrees with the change times of events (initial records seeded with wall time next to a configured clock)")
+		})
+	}
+	c.Count("direct_time_now_calls", n)
 }
